@@ -810,15 +810,7 @@ inline SenderVerdict walkFrames(const std::vector<Bytes>& frames, const std::vec
             mapOk = false;
             break;
         }
-        const bool startsPacket = (seg == wire::SEG_NONE || seg == wire::SEG_FIRST);
-        if (startsPacket == inChain)
-        {
-            fail("walker.bytes-once",
-                 "message " + std::to_string(k) + " in frame " + std::to_string(m.frame) + " has segment bits " + hex(seg) +
-                     (inChain ? " inside an open chain" : " without a first segment"));
-            mapOk = false;
-            break;
-        }
+        // the mapping of messages to packets follows the BYTES (C07); whether the segment bits are the right ones is C08's rule
         const Bytes& want = batch[pkt].payload;
         const Bytes& fr = frames[m.frame];
         if (posInPkt + m.h.plen > want.size() || !std::equal(fr.begin() + m.payloadOff, fr.begin() + m.payloadOff + m.h.plen, want.begin() + posInPkt))
@@ -836,15 +828,8 @@ inline SenderVerdict walkFrames(const std::vector<Bytes>& frames, const std::vec
         if (w.framesOfPacket[pkt].empty() || w.framesOfPacket[pkt].back() != m.frame)
             w.framesOfPacket[pkt].push_back(m.frame);
         posInPkt += m.h.plen;
-        if (seg == wire::SEG_NONE || seg == wire::SEG_LAST)
+        if (posInPkt == want.size())
         {
-            if (posInPkt != want.size())
-            {
-                fail("walker.bytes-once",
-                     "packet " + std::to_string(pkt) + " ends after " + std::to_string(posInPkt) + " of " + std::to_string(want.size()) + " bytes");
-                mapOk = false;
-                break;
-            }
             w.frameOfCompletion[pkt] = m.frame;
             ++pkt;
             posInPkt = 0;
